@@ -20,11 +20,14 @@ pub fn no_child(_: &[String]) -> i32 {
 
 pub mod okey;
 pub mod extid;
+pub mod capi;
 
 pub fn all() -> Vec<StreamDef> {
     vec![
         okey::def(),
         extid::def(),
+        capi::def(),
+        capi::def_ryw(),
     ]
 }
 
